@@ -180,7 +180,7 @@ class _Gen:
         if self.f.docstyle == 'epytext' and refs and r.random() < .6:
             words += ' See L{' + r.choice(refs) + '}.'
         if self.f.canary and r.random() < .5:
-            words += ' <zq%d a="1">&zq;\'"]]>--><!--' % r.randrange(1000)
+            words += ' @@CAN%d@@' % r.randrange(1000, 9999)
         return words
 
     def render_doc(self, doc: Optional[str], indent: str, layout: Optional[str] = None) -> List[str]:
